@@ -21,7 +21,7 @@ var props = map[string]propSpec{
 		MinReach: []string{"singleflight_join", "late_join_between_completion_and_key_removal", "wrapper_merge"}},
 	"C01": {Engine: "world", Cover: []string{"C05|", "C13.A1", "C04.A3"}, QuickRuns: 1200, QuickSecs: 40, ThoroughS: 600, Components: worldComponents,
 		MinReach: []string{"cross_host_cookie_refused", "wrong_provider_refused", "lifetime_expired_refused", "skip_auth_arrival", "revalidation_refused"}},
-	"C02": {Engine: "world", Cover: []string{"C06.A", "C08.A2"}, QuickRuns: 1200, QuickSecs: 40, ThoroughS: 600, Components: worldComponents},
+	"C02": {Engine: "world", Also: "sched", AlsoRuns: 8000, Cover: []string{"C06.A", "C08.A2"}, QuickRuns: 1200, QuickSecs: 40, ThoroughS: 600, Components: worldComponents},
 	"C03": {Engine: "world", QuickRuns: 1200, QuickSecs: 40, ThoroughS: 600, Components: worldComponents},
 	"C04": {Engine: "world", Cover: []string{"C05|", "C01|due"}, QuickRuns: 1200, QuickSecs: 40, ThoroughS: 600, Components: worldComponents,
 		MinReach: []string{"lifetime_expired_refused", "revalidation_refused", "due_check_ok_refresh", "due_check_ok_validate"}},
